@@ -324,7 +324,15 @@ func GrowShrink() {
 	}
 	l.Steer()
 	fixedOps(l, m, vx.Param("a", 2), 0)
-	fixedOps(l, m, vx.Param("b", 2), 3)
+	if vx.Param("clearmid", 0) == 1 {
+		// Clear in the middle: whatever Clear leaves behind in the upper levels meets the regrowing towers
+		l.Clear()
+		m.clear()
+		l.Steer()
+		vx.Assert(l.Len() == 0, "Clear empties the list")
+	} else {
+		fixedOps(l, m, vx.Param("b", 2), 3)
+	}
 	fixedOps(l, m, vx.Param("c", 1), 0)
 	// light observation (the full one multiplies the paths by its own forks)
 	all := func(int) bool { return true }
